@@ -57,4 +57,14 @@ def gen_signal(rng, n, t0=0, tmax=12, S=1, lo=-4, hi=4, end=None):
         ts = [t0] + inner + ([end] if end > t0 else [])
     else:
         ts = [t0] + sorted(rng.sample(range(t0 + 1, tmax + 1), min(n - 1, tmax - t0)))
-    return [[t, rng.randint(lo * S, hi * S)] for t in ts]
+    mode = rng.random()
+    if mode < 0.6:
+        vals = [rng.randint(lo * S, hi * S) for _ in ts]
+    else:
+        # monotone runs (staircases) after an extreme value: the shapes that exercise the sliding-window sweeps
+        vals = sorted(rng.randint(lo * S, hi * S) for _ in ts)
+        if mode < 0.8:
+            vals.reverse()
+        if len(vals) > 2 and rng.random() < 0.7:
+            vals[0] = rng.choice([hi * S + S, lo * S - S])
+    return [[t, v] for t, v in zip(ts, vals)]
